@@ -365,7 +365,11 @@ func checkStorageMessages(c *core.Ctx, rule string) {
 			if call, ok := in.(*ssa.Call); ok {
 				if b, ok := call.Call.Value.(*ssa.Builtin); ok && b.Name() == "append" {
 					if elems, ok := an.SliceElems(call.Call.Args[1]); ok && len(elems) == 1 {
-						if lk, ok := elems[0].(*ssa.Lookup); ok && lk.Index == ssa.Value(idx) {
+						el := elems[0]
+						if ex, ok := el.(*ssa.Extract); ok && ex.Index == 0 {
+							el = ex.Tuple // msg, ok := messages[i]
+						}
+						if lk, ok := el.(*ssa.Lookup); ok && lk.Index == ssa.Value(idx) {
 							if f, _ := an.LoadedField(lk.X); f != nil && f.Name() == "messages" {
 								okAppend = true
 							}
